@@ -132,13 +132,15 @@ type world struct {
 	m        *refLRU
 	hist     []histOp
 	expiry   map[int]time.Time // id -> expiresAt (flavor 2)
+	createdBy map[int]string   // id -> task whose call created it
+	retStamp  map[int]int64    // id -> stamp at which the creating call returned
 	maxNodesOver int
 	loaderSleep map[string]time.Duration
 }
 
 func New(c *sim.Case) (sim.World, error) {
 	return &world{c: c, mode: c.Mode, attempts: map[string]int{}, failAt: map[string]bool{}, ttlFor: map[string]time.Duration{}, inProg: map[string]int{},
-		created: map[int]string{}, deleted: map[int]int{}, cur: map[string]*callRec{}, expiry: map[int]time.Time{}, loaderSleep: map[string]time.Duration{}}, nil
+		created: map[int]string{}, deleted: map[int]int{}, cur: map[string]*callRec{}, expiry: map[int]time.Time{}, createdBy: map[int]string{}, retStamp: map[int]int64{}, loaderSleep: map[string]time.Duration{}}, nil
 }
 
 func (w *world) prop() string { return w.c.Prop }
@@ -181,6 +183,7 @@ func (w *world) load(k string) (*item, time.Duration, error) {
 		w.nextID++
 		it = &item{id: w.nextID, key: k}
 		w.created[it.id] = k
+		w.createdBy[it.id] = zsimrt.CurrentName()
 	}
 	if conc {
 		zsimrt.Yield("loader:exit")
@@ -191,6 +194,11 @@ func (w *world) load(k string) (*item, time.Duration, error) {
 }
 
 func (w *world) onDelete(k string, id int) {
+	if w.mode == "conc" {
+		// the callback is a scheduling point too (and may be slow): whatever
+		// the cache does around it can be interleaved with other callers
+		zsimrt.Yield("ondelete:enter")
+	}
 	w.rec().deletes = append(w.rec().deletes, fmt.Sprintf("%s=%d", k, id))
 	w.deleted[id]++
 	if w.deleted[id] > 1 {
@@ -328,6 +336,29 @@ func (w *world) doOp(idx int, name string, op sim.Op) {
 		out = lruOut{res: "cleared", n: n, evicted: strings.Join(r.deletes, ",")}
 		if w.mode == "seq" {
 			w.checkSeq("Clear()", w.m.clear(), seqObs{n: n, loads: r.loads, deletes: r.deletes})
+		}
+	}
+	ret := e.Stamp()
+	for id, by := range w.createdBy {
+		if by == name {
+			if _, done := w.retStamp[id]; !done {
+				w.retStamp[id] = ret
+			}
+		}
+	}
+	if op.K == "clear" && w.mode == "conc" {
+		// every value whose creating call had returned before this Clear was
+		// invoked has left the cache by now: its delete callback must have run
+		ids := make([]int, 0, len(w.retStamp))
+		for id := range w.retStamp {
+			ids = append(ids, id)
+		}
+		sort.Ints(ids)
+		for _, id := range ids {
+			if w.retStamp[id] < call && w.deleted[id] == 0 {
+				e.Violate("C09", "cleared_but_not_deleted", "Clear() returned, but value #%d of key %q (created by a call that had returned before Clear was invoked) has not been passed to the delete callback yet", id, w.created[id])
+				break
+			}
 		}
 	}
 	e.Logf("%s %s -> %s id=%d n=%d del=[%s] loads=%v", name, op.String(), out.res, out.id, out.n, out.evicted, r.loads)
@@ -493,7 +524,7 @@ func (w *world) linStep(st linState, in linIn, out lruOut) (bool, linState) {
 }
 
 func (w *world) Post(res *sim.Result) {
-	if w.mode != "conc" || len(res.Violations) > 0 || res.HarnessError != "" || res.Inconclusive != "" {
+	if w.mode != "conc" || len(res.Violations) > 0 || res.HarnessError != "" || res.Inconclusive != "" || w.flavor == 2 {
 		return
 	}
 	model := porcupine.Model{
